@@ -11,6 +11,7 @@ CONSTANTS
   MaxRestart = 1000
   MaxCheck = 1000
   MaxReorg = 1000
+  Sources <- SrcAll
   Race = TRUE
   Fix <- CodeFix
   Mut = ""
